@@ -97,7 +97,7 @@ class ObjFlow:
                         x[f] = v
                 elif not [p for p in pl["p"] if p != "*"]:
                     v = a.expr_rvalue(s["rv"], (bi, si))
-                    cur = self._from_value(v)
+                    cur = self._from_value(v, (bi, si))
         if upto is not None:
             return frozenset(freeze(x) for x in cur)
         t = b["term"]
@@ -109,7 +109,19 @@ class ObjFlow:
             out = frozenset(list(out)[:MAX_STATES])
         return out
 
-    def _from_value(self, v):
+    def _from_value(self, v, at=None):
+        if v[0] == "local" and at is not None and self.depth < 3 and v != self.D:
+            # `let mut m = <object built in place in another local>` (a constructor helper spliced into the body,
+            # `let m = tmp;`): the object continues the life of the one it was moved from
+            ty = self.fn.body.local_ty(v[1]) or ""
+            if ty.split("<")[0].endswith(self.adt):
+                try:
+                    src = ObjFlow(self.prog, self.fn, v, self.adt, UNINIT, self.depth + 1)
+                    sts = src.states_at(at)
+                except RecursionError:
+                    sts = None
+                if sts:
+                    return [{f: self.vid(x) for f, x in st.items()} for st in sts]
         if v[0] == "call":
             p = v[1]
             if p.endswith(self.adt + " as core::default::Default>::default") or p.endswith(self.adt + "::new") or p.endswith(self.adt + "::default"):
